@@ -4,7 +4,7 @@
    unchanged code (the position resolver and the traversal resolver disagree in the classes below). *)
 From Coq Require Import List NArith ZArith Bool.
 From LH Require Import Base.Bytes Model.Lexer Model.Ast Model.Scope Model.Globals Model.Resolve Spec.LuaScope
-  Proofs.ResolveRun Proofs.ResolveBasics Proofs.ResolveWitness Proofs.ResolveFull Properties.C05.
+  Proofs.ResolveRun Proofs.ResolveBasics Proofs.ResolveWitness Proofs.ResolveFull Proofs.ResolveFixes Properties.C05.
 Import ListNotations.
 Local Open Scope N_scope.
 
@@ -84,10 +84,15 @@ Print Assumptions C12_global_mixed_levels_refuted.
 Definition w_same_pos_other_file : list (list N * list N) :=
   [([97; 46; 108; 117; 97], [103; 32; 61; 32; 49; 10]);
    ([98; 46; 108; 117; 97], [103; 40; 41; 10])].
-(* references drop an occurrence in ANOTHER file that sits at the same line/column as the definition (ignoreDefineLoc is compared without the file name) *)
-Theorem C12_same_pos_other_file_refuted : c12_deviates w_same_pos_other_file [98; 46; 108; 117; 97] 0 0 = true.
+(* FIXED (fixes/C06-same-pos-other-file.diff): references dropped an occurrence in ANOTHER file that sits at the same
+   line/column as the definition (ignoreDefineLoc was compared without the file name).  The witness deviates for the
+   code before the repair (`no_fixes`) and no longer for the code now in /repo. *)
+Theorem C12_same_pos_other_file_refuted_before_fix : c12_deviates_fx no_fixes w_same_pos_other_file [98; 46; 108; 117; 97] 0 0 = true.
 Proof. vm_compute. reflexivity. Qed.
-Print Assumptions C12_same_pos_other_file_refuted.
+Print Assumptions C12_same_pos_other_file_refuted_before_fix.
+Theorem C12_same_pos_other_file_fixed : c12_deviates w_same_pos_other_file [98; 46; 108; 117; 97] 0 0 = false.
+Proof. vm_compute. reflexivity. Qed.
+Print Assumptions C12_same_pos_other_file_fixed.
 
 
 Theorem C12_full_refuted : ~ C12_full.
@@ -186,14 +191,15 @@ Proof. exact c12_clauses_request. Qed.
 Print Assumptions C12_clauses_1_2_partial_file.
 
 (* non-vacuity: C05's example programs satisfy the whole-file guard, alone and as a two-file workspace (25 of 33 and
-   36 of 43 occurrences bound to locals); the witness programs of B1, B4 and doc_end are rejected; the per-variable
+   36 of 43 occurrences bound to locals); the witness programs of B1, B4 are rejected, the one of the
+   repaired class doc_end is accepted; the per-variable
    guard separates the two x of the B1 witness *)
 Example C12_closed_guard_nonvacuous :
   request_guard 1000 [(a_lua, src_ok)] a_lua = true /\ request_guard 1000 [(a_lua, src_core)] a_lua = true /\
   request_guard 1000 [(a_lua, src_ok); (b_lua, src_core)] b_lua = true /\
   length (filter (fun s => match s_bind s with BLocal _ => true | BGlobal _ => false end) (bind_file (chunk_of src_core))) = 36%nat /\
   request_guard 1000 w_B1_own_initialiser a_lua = false /\ request_guard 1000 w_B4_forward_decl a_lua = false /\
-  request_guard 1000 [(a_lua, src_doc_end)] a_lua = false /\
+  request_guard 1000 [(a_lua, src_doc_end)] a_lua = true /\
   var_request_guard 1000 w_B1_own_initialiser a_lua (mk_loc 2 6 2 7) = true /\
   var_request_guard 1000 w_B1_own_initialiser a_lua (mk_loc 1 6 1 7) = false.
 Proof. vm_compute. repeat split; reflexivity. Qed.
